@@ -80,6 +80,9 @@ def run_case(spec):
             for stubborn in (False, True):
                 for req in ('signal:15', 'signal:10', 'signal:9', 'kill', 'kill:9', 'stop'):
                     run_one(mk(hooks, stubborn, 2), [req], res)
+                # the same gate on the stop_children path (the worker has a child, both are signalled)
+                for req in ('kill', 'kill:10', 'stop'):
+                    run_one(mk(hooks, stubborn, 2, stop_children=True), [req], res)
     else:
         for j in range(spec['lo'], spec['hi']):
             rnd = rng_for(spec['seed'], 'C14-cross', j)
@@ -91,10 +94,13 @@ def run_case(spec):
     return res
 
 
-def mk(hooks, stubborn, np_, autostart=True):
-    return {'watchers': [{'name': 'a', 'numprocesses': np_, 'graceful_timeout': 0.3, 'autostart': autostart,
-                          'hooks': hooks, 'beh': [{'15': ['ignore']}] if stubborn else [{}]}],
-            'stubborn': stubborn}
+def mk(hooks, stubborn, np_, autostart=True, stop_children=False):
+    wc = {'name': 'a', 'numprocesses': np_, 'graceful_timeout': 0.3, 'autostart': autostart,
+          'hooks': hooks, 'beh': [{'15': ['ignore']}] if stubborn else [{}]}
+    if stop_children:
+        wc['stop_children'] = True
+        wc['kids'] = [{'beh': {}}]
+    return {'watchers': [wc], 'stubborn': stubborn}
 
 
 def run_one(h, reqs, res):
